@@ -216,9 +216,7 @@ def _explore(out, tier, seed, facts, replay):
             except Exception as e:
                 out.violation("exception:%s" % n, "%s.compute_from_abcd%r raised %r" % (n, tab, e), {"metric": n, "table": tab})
                 continue
-            if math.isinf(v):
-                v = NAN   # compute_from_obs_fcst maps infinities to NaN; checked through vectors below
-            check_value(n, tab, v, "compute_from_abcd")
+            check_value(n, tab, v, "compute_from_abcd")      # an infinite value is reported (no metric gives one on a table of counts)
         distinct.add(tab)
         if b == 0 and c == 0:
             for n in NAMES:
